@@ -121,9 +121,10 @@ func buildReplayBinary(repo string, spec LoadSpec, stubs []StubSpec, harnessName
 			pat = strings.TrimPrefix(pat, spkgName+".")
 		}
 		re := regexp.MustCompile(`(^|[^\w.])` + regexp.QuoteMeta(pat) + `\(`)
-		var reM *regexp.Regexp
+		var reM, reM0 *regexp.Regexp
 		if ss.Method != "" {
 			reM = regexp.MustCompile(`([A-Za-z_][\w.]*)\.` + regexp.QuoteMeta(ss.Method) + `\(`)
+			reM0 = regexp.MustCompile(`([A-Za-z_][\w.]*)\.` + regexp.QuoteMeta(ss.Method) + `\(\)`)
 		}
 		for _, f := range ss.Files {
 			p := filepath.Join(sdir, f)
@@ -140,6 +141,7 @@ func buildReplayBinary(repo string, spec LoadSpec, stubs []StubSpec, harnessName
 					continue
 				}
 				if reM != nil {
+					l = reM0.ReplaceAllString(l, repl+"(${1})")
 					lines[i] = reM.ReplaceAllString(l, repl+"(${1}, ")
 					continue
 				}
